@@ -325,7 +325,12 @@ def run_parent(args):
         'coverage': coverage, 'assumptions': list(getattr(mod, 'ASSUMPTIONS', [])),
         'wall_s': round(wall, 3), 'violations': int(sum(unknown.values())),
     }
-    ev_path = os.path.join(VERIF, 'evidence', '%s.json' % pid)
+    ev_dir = os.path.join(VERIF, 'evidence')
+    if os.path.realpath(REPO) != '/repo':
+        # runs against a scratch copy (mutation self-test) never overwrite the real evidence
+        ev_dir = os.path.join(WORK, 'evidence-scratch')
+        os.makedirs(ev_dir, exist_ok=True)
+    ev_path = os.path.join(ev_dir, '%s.json' % pid)
     with open(ev_path, 'w') as f:
         json.dump(evidence, f, indent=1, sort_keys=True)
         f.write('\n')
